@@ -938,6 +938,45 @@ def _sm_correct(ctx, em, ci):
                'inv(self.transform) at every call' % (e.args[0], e.args[1]))
     ctx.ob('SM-SIGN', ok, None, 'corrected = T^-1 (increments - bias dt), row-wise', f=ci,
            node=node, key='correct', why=why)
+    # every other return: the same corrected data, or the input itself under a test that pins the
+    # estimates to their nominal values EXACTLY (then the correction is the identity)
+    from ..flow import path_to
+    for n in ast.walk(ci.node):
+        if not isinstance(n, ast.Return) or n.value is None:
+            continue
+        if isinstance(n.value, ast.Call) and n.value.args and n.value.args[0] is target:
+            continue
+        v = n.value
+        okr, whyr = False, ''
+        if isinstance(v, ast.Call) and v.args:
+            try:
+                okr = A.eq(ev(v.args[0]), want)
+            except (_CacheBroken, AnalysisError):
+                okr = False
+            whyr = 'returns `%s`, which is not the corrected data' % norm_text(v)[:60]
+        elif isinstance(v, ast.Name) and v.id in ci.params:
+            conds = []
+            for blk, i in (path_to(ci.node.body, n) or []):
+                pass
+            # the guarding tests: the enclosing ifs of the return
+            guards = [norm_text(x.test) for x in ast.walk(ci.node) if isinstance(x, ast.If) and
+                      any(y is n for y in ast.walk(x))]
+            g = ' and '.join(guards)
+            exact_t = any(k in g for k in ('np.array_equal(self.transform, np.identity(3))',
+                                           'np.array_equal(self.transform, np.eye(3))',
+                                           '(self.transform == np.identity(3)).all()',
+                                           '(self.transform == np.eye(3)).all()'))
+            exact_b = any(k in g for k in ('not np.any(self.bias)', 'not self.bias.any()',
+                                           '(self.bias == 0).all()', 'np.all(self.bias == 0)'))
+            okr = exact_t and exact_b and ' or ' not in g
+            whyr = ('returns the uncorrected input under `%s`: unless the test pins transform to '
+                    'the identity and bias to zero exactly, estimates below the threshold are '
+                    'silently not applied' % g[:100])
+        else:
+            whyr = 'returns `%s`' % norm_text(v)[:60]
+        ctx.ob('SM-SIGN', okr, None, 'every return of correct_increments is the corrected data', f=ci,
+               node=n, key='correct-return-' + norm_text(v)[:40],
+               why='correct_increments has a second exit that %s' % whyr)
     # SM-UNITS: the bias is removed as bias * dt^1
     subs = [n for n in ast.walk(ci.node) if isinstance(n, ast.BinOp) and isinstance(n.op, ast.Sub)
             and 'self.bias' in norm_text(n.right) and 'self.bias' not in norm_text(n.left)]
